@@ -96,4 +96,58 @@ func init() {
 		{Kind: "calls", File: "v2/pkg/engine/resolve/response.go", Func: "GraphQLResponse.SingleFlightAllowed", Name: "inboundAllowed", Match: []string{"if", "return"}},
 		{Kind: "calls", File: ldr, Func: "Loader.singleFlightAllowed", Name: "subgraphAllowed", Match: []string{"if", "return"}},
 	}
+	// C12: every path that touches a subscription writer, with its locking and its removed-check
+	wr := []string{"if", "return", "s.writeMu.Lock", "defer:s.writeMu.Unlock", "s.removed.Load", "s.writer.*", "w.WriteError", "close(s.completed)",
+		"sub.writeMu.Lock", "sub.writeMu.Unlock", "sub.removed.Load", "sub.writer.*", "sub.writeError", "resolvable.Resolve", "r.errorFormatter.WriteError",
+		"r.UnsubscribeSubscription", "loader.LoadGraphQLResponseData", "sub.lastWriteTime.Store", "sub.sendHeartbeat", "sub.ctx.Context"}
+	upd := []string{"if", "return", "s.mu.Lock", "defer:s.mu.Unlock", "s.resolver.*", "s.ctx.Err"}
+	specs["C12"] = []item{
+		{Kind: "calls", File: rsv, Func: "subscriptionState.done", Name: "subDone", Match: wr},
+		{Kind: "calls", File: rsv, Func: "subscriptionState.complete", Name: "subComplete", Match: wr},
+		{Kind: "calls", File: rsv, Func: "subscriptionState.error", Name: "subError", Match: wr},
+		{Kind: "calls", File: rsv, Func: "subscriptionState.writeError", Name: "subWriteError", Match: wr},
+		{Kind: "calls", File: rsv, Func: "subscriptionState.sendHeartbeat", Name: "subSendHeartbeat", Match: wr},
+		{Kind: "calls", File: rsv, Func: "Resolver.executeSubscriptionUpdate", Name: "executeUpdate", Match: wr},
+		{Kind: "calls", File: rsv, Func: "Resolver.executeSubscriptionHeartbeat", Name: "executeHeartbeat", Match: wr},
+		{Kind: "calls", File: rsv, Func: "subscriptionUpdater.Update", Name: "updUpdate", Match: upd},
+		{Kind: "calls", File: rsv, Func: "subscriptionUpdater.UpdateSubscription", Name: "updUpdateSubscription", Match: upd},
+		{Kind: "calls", File: rsv, Func: "subscriptionUpdater.Complete", Name: "updComplete", Match: upd},
+		{Kind: "calls", File: rsv, Func: "subscriptionUpdater.Error", Name: "updError", Match: upd},
+		{Kind: "calls", File: rsv, Func: "subscriptionUpdater.Heartbeat", Name: "updHeartbeat", Match: upd},
+		{Kind: "calls", File: rsv, Func: "subscriptionUpdater.Done", Name: "updDone", Match: upd},
+		{Kind: "calls", File: rsv, Func: "subscriptionUpdater.CloseSubscription", Name: "updCloseSubscription", Match: upd},
+		{Kind: "calls", File: rsv, Func: "Resolver.getTriggerForUpdater", Name: "getTriggerForUpdater", Match: []string{"if", "return", "r.getTrigger"}},
+		{Kind: "calls", File: rsv, Func: "Resolver.handleTriggerUpdate", Name: "handleUpdate",
+			Match: []string{"if", "return", "r.getTriggerForUpdater", "r.getTrigger", "trig.filterSubscriptions", "fe.sub.writeError", "for", "sub.removed.Load", "wg.Go", "r.executeSubscriptionUpdate", "wg.Wait"}},
+		{Kind: "calls", File: rsv, Func: "Resolver.handleUpdateSubscription", Name: "handleUpdateSubscription",
+			Match: []string{"if", "return", "r.getTriggerForUpdater", "r.getTrigger", "trig.filterSubscription", "filterErr.sub.writeError", "sub.removed.Load", "r.executeSubscriptionUpdate"}},
+		{Kind: "calls", File: rsv, Func: "Resolver.handleTriggerComplete", Name: "handleComplete",
+			Match: []string{"if", "return", "r.getTriggerForUpdater", "r.getTrigger", "trig.snapshotSubscriptions", "for", "s.removed.Load", "s.complete"}},
+		{Kind: "calls", File: rsv, Func: "Resolver.handleTriggerError", Name: "handleError",
+			Match: []string{"if", "return", "r.getTriggerForUpdater", "r.getTrigger", "trig.snapshotSubscriptions", "for", "s.removed.Load", "s.error"}},
+		{Kind: "calls", File: rsv, Func: "trigger.evalFilter", Name: "evalFilter", Match: []string{"if", "return", "s.ctx.ctx.Err", "s.resolve.Filter.SkipEvent"}},
+		{Kind: "calls", File: rsv, Func: "trigger.filterSubscriptions", Name: "filterSubscriptions", Match: []string{"t.mu.Lock", "defer:t.mu.Unlock", "for", "t.evalFilter", "if"}},
+		{Kind: "calls", File: rsv, Func: "closeSubs", Name: "closeSubs", Match: []string{"for", "s.done"}},
+	}
+	// C13: every registry mutation, with its locking, reporter calls and the cancel/close that follow it
+	regm := []string{"if", "return", "for", "r.mu.Lock", "r.mu.Unlock", "defer:r.mu.Unlock", "trig.mu.Lock", "trig.mu.Unlock", "r.reporter.*", "r.registerSubscriptionLocked",
+		"r.unregisterSubscriptionLocked", "r.removeSubscriptionLocked", "r.detachTriggerLocked", "closeSubs", "res.triggerCancel", "cancel", "delete", "s.removed.CompareAndSwap",
+		"trig.initialized.*", "go", "r.executeStartupHooks", "add.resolve.Trigger.Source.Start", "sub.writeError", "s.writeError", "r.doneTriggerFromUpdater", "r.markTriggerInitialized",
+		"r.UnsubscribeSubscription", "r.removeClient", "context.WithCancel", "trig.snapshotSubscriptions", "defer:verifYield"}
+	gds := "v2/pkg/engine/datasource/graphql_datasource/graphql_datasource.go"
+	specs["C13"] = []item{
+		{Kind: "calls", File: rsv, Func: "Resolver.addSubscription", Name: "addSubscription", Match: regm},
+		{Kind: "calls", File: rsv, Func: "Resolver.markTriggerInitialized", Name: "markTriggerInitialized", Match: regm},
+		{Kind: "calls", File: rsv, Func: "Resolver.doneTriggerFromUpdater", Name: "doneTriggerFromUpdater", Match: regm},
+		{Kind: "calls", File: rsv, Func: "Resolver.removeClient", Name: "removeClient", Match: regm},
+		{Kind: "calls", File: rsv, Func: "Resolver.removeSubscriptionLocked", Name: "removeSubscriptionLocked", Match: regm},
+		{Kind: "calls", File: rsv, Func: "Resolver.detachTriggerLocked", Name: "detachTriggerLocked", Match: regm},
+		{Kind: "calls", File: rsv, Func: "Resolver.shutdownResolver", Name: "shutdownResolver", Match: regm},
+		{Kind: "calls", File: rsv, Func: "Resolver.UnsubscribeSubscription", Name: "unsubscribeSubscription", Match: regm},
+		{Kind: "calls", File: rsv, Func: "Resolver.UnsubscribeClient", Name: "unsubscribeClient", Match: regm},
+		{Kind: "calls", File: rsv, Func: "Resolver.prepareTrigger", Name: "prepareTrigger",
+			Match: []string{"if", "return", "source.HashTriggerInput", "ctx.SubgraphHeadersBuilder.HeadersForSubgraph", "binary.LittleEndian.PutUint64", "keyGen.Write", "keyGen.Sum64"}},
+		{Kind: "calls", File: gds, Func: "SubscriptionSource.HashTriggerInput", Name: "gqlHashTriggerInput", Match: []string{"if", "return", "xxh.*", "json.*", "for"}},
+		{Kind: "calls", File: gds, Func: "SubscriptionSource.Start", Name: "gqlStart", Match: []string{"if", "return", "json.Unmarshal", "s.client.Subscribe"}},
+	}
 }
